@@ -5,8 +5,9 @@
 import json, os, re, shutil, subprocess, sys
 
 pid, k, n = sys.argv[1], sys.argv[2], sys.argv[3]
-wt = sys.argv[4] if len(sys.argv) > 4 else "/tmp/mut2/confirm"
-src = f"/tmp/mut2/{pid}/out"
+BASE = os.environ.get("MUT_BASE", "/tmp/mut3")
+wt = sys.argv[4] if len(sys.argv) > 4 else f"{BASE}/confirm"
+src = f"{BASE}/{pid}/out"
 HERE = os.path.dirname(os.path.dirname(os.path.abspath(__file__)))
 
 
@@ -23,7 +24,7 @@ for f in (diff, demo):
     if not os.path.exists(f):
         sys.exit(f"missing {f}")
 env = f"PYTHONPATH={wt} MPLBACKEND=Agg"
-base_file = "/tmp/mut2/always_fail.json"
+base_file = f"{BASE}/always_fail.json"
 if not os.path.exists(base_file):
     r = sh(f"cd {wt} && {env} /venv/bin/python -m pytest -q -p no:cacheprovider --timeout=900 2>&1 | grep -E '^(FAILED|ERROR)' | sed 's/ - .*//' | sort -u")
     json.dump(r.stdout.split("\n"), open(base_file, "w"))
@@ -53,7 +54,7 @@ if os.path.exists(notes):
 files = re.findall(r"^\+\+\+ b/(\S+)", open(diff).read(), re.M)
 meta = dict(id=f"{pid}-{n}", breaks_property=pid, files_changed=files,
             needs_to_manifest=(open(notes).read().split("\n") if os.path.exists(notes) else []),
-            origin="second round: written by an independent sub-agent that saw only the property text and its own scratch worktree of /repo, nothing from /verif",
+            origin=os.environ.get("MUT_ROUND", "third") + " round: written by an independent sub-agent that saw only the property text, (from the third round on) a list of the mechanisms already tried, and its own scratch worktree of /repo - nothing from /verif",
             confirmed=dict(how="tools/ingest_seed.py in a scratch worktree of /repo: demo on the clean tree, git apply, demo again, full test suite, git checkout",
                            demo_on_clean_tree=f"exit {r0.returncode}", demo_with_change=f"exit {r1.returncode}", test_suite_with_change=(summary[0] if summary else "?"),
                            failing_tests_beyond_the_always_failing_set=sorted(failed - always)),
